@@ -50,7 +50,7 @@ def run(ctx):
     try:
         for i in range(n):
             root = ctx.scratch(f"w{i}")
-            ws = gen.gen_workspace(root, ctx.rng, venv=(i % 2 == 0))
+            ws = gen.gen_workspace(root, ctx.rng, venv=(i % 4 == 0), allow_imports=(i % 2 == 0), depth=ctx.rng.randint(2, 4))
             materialize(ws)
             db = vh.new_db()
             vh.call(op="scan", db=db, root=root)
